@@ -39,6 +39,23 @@ for c in sorted(os.listdir(V+'/checks')):
     n=len(glob.glob(V+'/checks/%s/mutants/*.diff'%c))
     doc='checks/%s/MUTANTS.md'%c if os.path.exists(V+'/checks/%s/MUTANTS.md'%c) else ('checks/%s/MUTANTS-net.md'%c if os.path.exists(V+'/checks/%s/MUTANTS-net.md'%c) else '(see §11.8)')
     out.append('| %s | %d | %s |'%(c,n,doc))
+out.append('\n### 11.9 Registered checks as built (from checks/*/check.json)\n')
+out.append('| property | level | packages | units (quick cases x shards / thorough cases x shards) | rewrite (E3/E4 shims) |\n|---|---|---|---|---|')
+for c in sorted(os.listdir(V+'/checks')):
+    f=V+'/checks/%s/check.json'%c
+    if not os.path.exists(f): continue
+    cfg=json.load(open(f))
+    if not cfg.get('registered'): continue
+    us=[]
+    for u in cfg['units']:
+        q=u.get('quick',{}); t=u.get('thorough',{})
+        us.append('%s: %sx%s / %sx%s'%(u['run'].split('_',2)[-1],q.get('checks','-'),q.get('shards',1),t.get('checks','-'),t.get('shards',1)))
+    pk=sorted({u['pkg'] for u in cfg['units']})
+    rw=cfg.get('rewrite')
+    rws='-'
+    if rw:
+        rws='%d file pattern(s)'%len(rw.get('files',[]))+(', consts' if rw.get('consts') else '')+(', %d prologue(s)'%len(rw.get('prologues',[])) if rw.get('prologues') else '')
+    out.append('| %s | %s | %s | %s | %s |'%(c,cfg.get('level'),' '.join(pk),'; '.join(us),rws))
 gen='\n'.join(out)+'\n'
 p=V+'/DESIGN.md'
 s=open(p).read()
